@@ -941,3 +941,33 @@ def twin_pair(rng, cls):
         d = other["astereo"][t]
         other["astereo"][t] = (d[0], d[1], rng.choice([1, -1]) if d[2] is None else None)
     return pg, sem.pg_relabel(other, random_bijection(rng, other))
+
+
+def bond_change_only_pair(rng):
+    """(a, b, same): a StereoCondensedReactionGraph WITHOUT changed bonds and WITHOUT atom stereo changes whose only
+    stereo element is an AtropBond / PlanarBond inside a bond stereo change; b is a relabelled copy (same=True) or the
+    graph with that descriptor inverted / its two ligands on one end exchanged (same decided by the caller's oracle)"""
+    cls = "StereoCondensedReactionGraph"
+    pg = sem.pg_empty(cls)
+    ids = make_ids(rng, 6 + 4)
+    x, y = ids[0], ids[1]
+    pg["atoms"][x] = {"atom_type": rng.choice([6, 14])}
+    pg["atoms"][y] = {"atom_type": rng.choice([6, 14, 7])}
+    pg["bonds"][frozenset((x, y))] = {}
+    els = rng.sample([1, 9, 17, 35, 8], 4) if rng.random() < 0.6 else [rng.choice([9, 17])] * 2 + [rng.choice([1, 35])] * 2
+    lig = ids[2:6]
+    for a, z, c in zip(lig, els, (x, x, y, y)):
+        pg["atoms"][a] = {"atom_type": z}
+        pg["bonds"][frozenset((c, a))] = {}
+    klass = "AtropBond" if rng.random() < 0.6 else "PlanarBond"
+    par = rng.choice((1, -1)) if klass == "AtropBond" else 0
+    d = (klass, (lig[0], lig[1], x, y, lig[2], lig[3]), par)
+    slots = rng.choice([("BROKEN",), ("FORMED",), ("FLEETING",), ("BROKEN", "FORMED")])
+    pg["bchange"][frozenset((x, y))] = {s_: d for s_ in slots}
+    other = sem.pg_copy(pg)
+    how = rng.random()
+    if how < 0.6:
+        d2 = (klass, (lig[1], lig[0], x, y, lig[2], lig[3]), par) if klass == "PlanarBond" or rng.random() < 0.5 else (klass, d[1], -par)
+        s_ = rng.choice(slots)
+        other["bchange"][frozenset((x, y))][s_] = d2
+    return pg, sem.pg_relabel(other, random_bijection(rng, other))
